@@ -65,6 +65,8 @@ def make_dist(V, d, nan_first=False):
     fam = d["family"]
     cls = V["_GammaSD"] if fam == "ScipyGamma" else getattr(V["D"], CLASSNAME[fam])
     kw = {"f_" + p: FIXVAL.get(p, 1.5) for p in d["fixed"]}
+    if d.get("fixzero") in d["fixed"]:
+        kw["f_" + d["fixzero"]] = 0    # boundary: a parameter legitimately fixed at exactly 0
     if fam == "LogNormalNormFit" and "mu_norm" not in d["fixed"]:
         kw["mu_norm"] = 1.0          # the class default (0) is not a valid parameter value
     if nan_first:
@@ -599,6 +601,8 @@ def m_both_given(spec, i, v):
     if p not in PARAMS[d["family"]] or p in d["fixed"]:
         return None
     d["fixed"] = [x for x in PARAMS[d["family"]] if x in d["fixed"] or x == p]
+    if p in FIXVAL and v % 2 == 0:
+        d["fixzero"] = p
     return {"cls": "parameter_fixed_and_dependent", "pos": i, "phase": "PhModel"}
 
 
